@@ -13,7 +13,7 @@
              delivery log with the stream of a single tracer subscribed to the union expanded in stack order. *)
 From Coq Require Import List ZArith NArith Bool Arith Sorted.
 Import ListNotations.
-From PyccoloV Require model.RwFrag model.FragSem proofs.FragSemProofs.
+From PyccoloV Require model.RwFrag model.FragSem proofs.FragSemProofs model.FragProg proofs.FragProgProofs.
 From PyccoloV Require Import gen.PyAst gen.Ids gen.Events gen.EmitRet model.Val model.Rt model.Tree model.Erase model.Prune
   proofs.RtProofs proofs.DeliverProofs proofs.EraseSound proofs.PruneSound.
 
@@ -74,3 +74,14 @@ Proof.
   apply FragSemProofs.frag_projection; [exact Hs|]. intros e He. cbn. apply existsb_exists. exists c. split; assumption.
 Qed.
 Print Assumptions C05_frag_stack.
+
+(* ... and with LOOPS AND FUNCTIONS (model/FragProg.v), as long as no handler of the stack touches a guard (guards in any fixed state G) *)
+Theorem C05_prog_stack : forall binop cmpop unop truth cval is_and fuel (cs : list RwFrag.rcfg) (c : RwFrag.rcfg) (G : FragProg.guard -> bool) ge m d r sv sv',
+  In c cs -> forallb FragProgProofs.psrc_t m = true ->
+  FragSem.filter_log c (FragProg.p_log (FragProg.prun binop cmpop unop truth cval is_and (union_cfg cs) (fun _ g => G g) fuel d (FragProg.pinstr_module (union_cfg cs) ge m) r sv)) =
+  FragSem.filter_log c (FragProg.p_log (FragProg.prun binop cmpop unop truth cval is_and c (fun _ g => G g) fuel d (FragProg.pinstr_module c ge m) r sv')).
+Proof.
+  intros binop cmpop unop truth cval is_and fuel cs c G ge m d r sv sv' Hin Hs.
+  apply FragProgProofs.prog_projection; [exact Hs|]. intros e He. cbn. apply existsb_exists. exists c. split; assumption.
+Qed.
+Print Assumptions C05_prog_stack.
